@@ -85,6 +85,8 @@ pub fn accept_for(key: &[u8]) -> String {
 pub struct WsCtx {
     pub entered: AtomicU64,
     pub finished: AtomicU64,
+    /// /wsburst: bytes the handler had written when it flushed (0 = not there yet)
+    pub burst_written: AtomicU64,
 }
 
 #[channel { protocol = WEBSOCKETS, path = "/ws" }]
@@ -104,9 +106,37 @@ async fn vw_echo(rq: RequestContext<WsCtx>, upgraded: WebsocketConnection) -> We
     Ok(())
 }
 
+const BURST_CAP: u64 = 96 << 20;
+fn burst_byte(i: u64) -> u8 {
+    (i % 251) as u8
+}
+
+/// Writes a position-dependent byte pattern for as long as the connection takes it without delay
+/// (the peer is not reading, so this stops when every buffer on the way is full), then flushes and
+/// waits for one byte from the peer.  Everything written before the flush has to reach the peer.
+#[channel { protocol = WEBSOCKETS, path = "/wsburst" }]
+async fn vw_burst(rq: RequestContext<WsCtx>, upgraded: WebsocketConnection) -> WebsocketChannelResult {
+    let mut io = upgraded.into_inner();
+    let mut total: u64 = 0;
+    while total < BURST_CAP {
+        let chunk: Vec<u8> = (0..32768u64).map(|k| burst_byte(total + k)).collect();
+        match tokio::time::timeout(Duration::from_millis(250), io.write(&chunk)).await {
+            Ok(Ok(n)) => total += n as u64,
+            Ok(Err(e)) => return Err(e.into()),
+            Err(_) => break,
+        }
+    }
+    rq.context().burst_written.store(total.max(1), Ordering::SeqCst);
+    io.flush().await?;
+    let mut b = [0u8; 1];
+    let _ = io.read(&mut b).await;
+    Ok(())
+}
+
 fn ws_api() -> ApiDescription<WsCtx> {
     let mut api = ApiDescription::new();
     api.register(vw_echo).unwrap();
+    api.register(vw_burst).unwrap();
     api
 }
 
@@ -484,13 +514,95 @@ fn check_ws(live: &Live, rt: &tokio::runtime::Runtime, c: &WsCase, st: &mut Stat
     })
 }
 
+#[derive(Clone, Debug, Serialize, Deserialize)]
+struct BurstCase {
+    tls: bool,
+    /// how long the client waits after the handler has flushed before it starts reading
+    read_delay_ms: u16,
+    read_buf: u32,
+}
+
+/// server -> client under backpressure: the client does not read until the handler has written as
+/// much as the connection would take and has flushed; then every byte written must arrive
+fn check_burst(live: &Live, rt: &tokio::runtime::Runtime, c: &BurstCase, st: &mut Stats) -> Result<(), Failure> {
+    let ctx = live.server.app_private();
+    ctx.burst_written.store(0, Ordering::SeqCst);
+    let key = b"dGhlIHNhbXBsZSBub25jZQ==";
+    let req = format!("GET /wsburst HTTP/1.1\r\nHost: verif\r\nConnection: upgrade\r\nUpgrade: websocket\r\nSec-WebSocket-Version: 13\r\nSec-WebSocket-Key: {}\r\n\r\n", String::from_utf8_lossy(key)).into_bytes();
+    let how = if live.tls { "https" } else { "http" };
+    rt.block_on(async {
+        let tcp = tokio::net::TcpStream::connect(live.addr).await.map_err(|e| Failure::new("connect", e.to_string()))?;
+        let mut pre: Vec<u8> = vec![];
+        async fn run<S: tokio::io::AsyncRead + tokio::io::AsyncWrite + Unpin>(s: &mut S, req: &[u8], pre: &mut Vec<u8>, ctx: &WsCtx, c: &BurstCase, how: &str, st: &mut Stats) -> Result<(), Failure> {
+            s.write_all(req).await.map_err(|e| Failure::new("send", e.to_string()))?;
+            s.flush().await.ok();
+            let resp = http1::read_response_from(s, pre, false, Duration::from_secs(10)).await.resp().map_err(|e| Failure::new("no-response", e))?;
+            ensure!(resp.status == 101, "valid-handshake-refused", "[{}] plain valid handshake to /wsburst got {}", how, resp.status);
+            // do not read: wait until the handler has stopped writing and has flushed
+            let mut waited = 0;
+            while ctx.burst_written.load(Ordering::SeqCst) == 0 {
+                tokio::time::sleep(Duration::from_millis(5)).await;
+                waited += 1;
+                ensure!(waited < 12000, "harness-burst", "the burst handler never got to its flush");
+            }
+            let total = ctx.burst_written.load(Ordering::SeqCst);
+            tokio::time::sleep(Duration::from_millis(c.read_delay_ms as u64)).await;
+            st.eval();
+            st.count_n("burst_bytes", total);
+            if total > 65536 {
+                st.nontrivial(hash_of(&format!("{:?}{}", c, total)));
+                st.count("bursts_with_backpressure");
+            }
+            let mut got: u64 = 0;
+            let mut check = |chunk: &[u8], got: &mut u64| -> Result<(), Failure> {
+                for b in chunk {
+                    ensure!(*b == burst_byte(*got), "burst-bytes-corrupted", "[{}] byte {} of the burst is {:#x}, written as {:#x}", how, got, b, burst_byte(*got));
+                    *got += 1;
+                }
+                Ok(())
+            };
+            let lead = pre.clone();
+            check(&lead, &mut got)?;
+            let mut buf = vec![0u8; (c.read_buf as usize).clamp(1, 1 << 20)];
+            let deadline = tokio::time::Instant::now() + Duration::from_secs(30);
+            while got < total {
+                match tokio::time::timeout_at(deadline, s.read(&mut buf)).await {
+                    Ok(Ok(n)) if n > 0 => check(&buf[..n], &mut got)?,
+                    _ => break,
+                }
+            }
+            ensure!(
+                got == total,
+                "burst-bytes-lost",
+                "[{}] the channel handler wrote {} bytes and flushed, then waited for the peer; only {} arrived ({} missing)",
+                how,
+                total,
+                got,
+                total - got
+            );
+            let _ = s.write_all(b"k").await;
+            let _ = s.flush().await;
+            st.sample(|| json!({"transport": how, "bytes_written_before_flush": total, "arrived": got}));
+            Ok(())
+        }
+        if live.tls {
+            let connector = crate::tls::connector();
+            let mut s = crate::tls::handshake(&connector, tcp).await.map_err(|e| Failure::new("tls-handshake", e.to_string()))?;
+            run(&mut s, &req, &mut pre, ctx, c, how, st).await
+        } else {
+            let mut s = tcp;
+            run(&mut s, &req, &mut pre, ctx, c, how, st).await
+        }
+    })
+}
+
 pub fn run(ctx: &mut Ctx) {
     // self-test of the digest against RFC 6455 section 1.3
     if accept_for(b"dGhlIHNhbXBsZSBub25jZQ==") != "s3pPLMBiTxaQ9kYGzzhZRbK+xOo=" || sha1(b"abc")[..4] != [0xa9, 0x99, 0x3e, 0x36] {
         ctx.harness_error("own SHA-1/base64 fails the RFC test vector".into());
         return;
     }
-    ctx.rule = "handshakes over raw TCP: key = any non-empty header-legal byte string; Connection and Upgrade values as token lists with random case of the required token, extra tokens before/after, OWS (SP/HTAB) around commas, optionally split over several header lines; each of the four elements good / missing / wrong; post-upgrade payloads up to 256 KiB with arbitrary write splits. Oracle: all four present => 101, Sec-WebSocket-Accept == own SHA-1/base64 digest, handler entered once, bytes echoed unmodified; anything missing or wrong => 4xx and handler not entered. non-trivial = every negative case and every positive case whose lists are not the single-token spelling; distinct by request bytes".into();
+    ctx.rule = "handshakes over raw TCP: key = any non-empty header-legal byte string; Connection and Upgrade values as token lists with random case of the required token, extra tokens before/after, OWS (SP/HTAB) around commas, optionally split over several header lines; each of the four elements good / missing / wrong; post-upgrade payloads up to 256 KiB with arbitrary write splits. Oracle: all four present => 101, Sec-WebSocket-Accept == own SHA-1/base64 digest, handler entered once, bytes echoed unmodified; phase burst_then_flush: the handler writes a position-dependent pattern until the connection takes no more (the client is not reading), flushes and waits - every byte written before the flush must arrive, plain and TLS; anything missing or wrong => 4xx and handler not entered. non-trivial = every negative case and every positive case whose lists are not the single-token spelling; distinct by request bytes".into();
     ctx.assume("empty key values are not generated (whether an empty value 'carries a key' is not stated)");
     ctx.max_shrink_iters = 500;
     let srt = tokio::runtime::Builder::new_multi_thread().worker_threads(3).enable_all().build().unwrap();
@@ -513,6 +625,18 @@ pub fn run(ctx: &mut Ctx) {
     // the HTTPS accept path serves connections through separate code: same property over TLS
     let n = ctx.tier.pick(600, 8000);
     ctx.phase("handshakes_https", n, ws_case(), |c, st| check_ws(&live_tls, &rt, c, st));
+    // server -> client under backpressure, plain and TLS
+    let n = ctx.tier.pick(6u64, 60);
+    let cases: Vec<BurstCase> = (0..n)
+        .map(|i| {
+            let r = splitmix64(ctx.seed ^ (i << 8) ^ 0xb5);
+            BurstCase { tls: i % 2 == 1, read_delay_ms: if i < 2 { 0 } else { (r % 200) as u16 }, read_buf: if i < 4 { 65536 } else { 1 + ((r >> 16) % 200000) as u32 } }
+        })
+        .collect();
+    ctx.enumerate("burst_then_flush", cases, false, |c, st| {
+        st.count(if c.tls { "burst_https" } else { "burst_http" });
+        check_burst(if c.tls { &live_tls } else { &live }, &rt, c, st)
+    });
     let _ = srt.block_on(live.server.close());
     let _ = srt.block_on(live_tls.server.close());
 }
